@@ -59,7 +59,7 @@ PROPS = {
         ],
     ),
     'C03': dict(
-        verus=['tile_bbox', 'filters', 'overlay', 'converter'],
+        verus=['tile_bbox', 'filters', 'overlay', 'converter', 'pmtiles_reader'],
         kani=['pyramid'],
         not_decided=[
             'MBTiles MIN/MAX SQL estimate-then-refine', 'tar/directory file-name parsing that feeds include_coord',
@@ -85,7 +85,7 @@ PROPS = {
         ],
     ),
     'C16': dict(
-        verus=['pmtiles_dir', 'varint_pbf'],
+        verus=['pmtiles_dir', 'varint_pbf', 'pmtiles_reader'],
         kani=['pmtiles_codec', 'versatiles_codec'],
         not_decided=[
             'MBTiles zoom gaps (SQL), ./-prefixed tar members (string code)',
@@ -93,7 +93,7 @@ PROPS = {
         ],
     ),
     'C19': dict(
-        verus=['varint_pbf', 'pmtiles_dir', 'filters', 'converter', 'vector_tile_tables'],
+        verus=['varint_pbf', 'pmtiles_dir', 'filters', 'converter', 'vector_tile_tables', 'pmtiles_reader'],
         kani=['pmtiles_codec', 'versatiles_codec', 'geo'],
         not_decided=[
             'JSON / TileJSON / CSV / VPL text parsers (String, nom, core::fmt: outside both verifiers; Kani probes timed out)',
